@@ -12,6 +12,16 @@ CHECKS = [
       note="float = R; exp/sqrt axiomatised; glue lemma 'piecewise derivative<=0 + ordered knots => non-increasing' is "
            "mathematics not code; sympy integration trusted; compiled twins compared as source text (Cython/gcc trusted); "
            "open finding: absolute 1e-12 coincidence band"),
+ dict(id='C15',
+      text="Proof over the reals for all admissible states: relational (two-run) contracts on the real text of "
+           "riemann_solver.py -- reflection symmetry for 9 of 11 solvers (hllc for contact speed != 0; ducowicz not "
+           "proved) and the dispatch, equal-state clause for all 11, Galilean invariance for van_leer and exact, scaling "
+           "for van_leer (floor inactive), success => p*>0 / tolerance / u* formula, vacuum => failure. Iterative "
+           "solvers are cut at the loop head with relational invariants, so niter is unbounded. Run 2 is aligned with "
+           "run 1 by proved equalities (pyvc/relational.py).",
+      note="float = R; sqrt/pow axiomatised; divisions and pow bases are hypotheses of the path ('when the result is "
+           "finite'); NOT verified and not claimed: ducowicz reflection (solver time-out), exact scaling, hllc at "
+           "contact speed exactly 0; open findings: van_leer absolute floor, exact niter-1 convergence, ducowicz tie"),
 ]
 
 NOT_APPLICABLE = [
@@ -21,7 +31,7 @@ NOT_APPLICABLE = [
 ]
 # properties not yet under a registered check are listed as not applicable
 # "pending" until their check lands, so the manifest is valid at all times
-PENDING = ['C01','C02','C03','C04','C05','C06','C07','C09','C10','C13','C14','C15','C16','C17','C19','C20']
+PENDING = ['C01','C02','C03','C04','C05','C06','C07','C09','C10','C13','C14','C16','C17','C19','C20']
 for p in PENDING:
     if p not in [c['id'] for c in CHECKS]:
         NOT_APPLICABLE.append(dict(property_id=p, reason="check not registered yet in this commit (work in progress, see DESIGN.md section 3 for the planned contracts)"))
